@@ -3,7 +3,7 @@
 # all quick checks; every check must stay silent. Prints "<id> silent" or the checks that raised an alarm.
 . /verif/env.sh
 ids="$@"
-[ -z "$ids" ] && ids="$(ls /verif/benign)"
+[ -z "$ids" ] && ids="$(ls /verif/benign | grep -v json)"
 one() {
   id=$1
   wt=/tmp/bn_$$_$id
